@@ -25,8 +25,14 @@ import (
 // ---- C13: decoders behind a faulty reader (DESIGN §4 C13) ----
 
 type DocIn struct {
-	Host string `dials:"host"`
-	Port int    `dials:"port"`
+	Host string `dials:"host_name"`
+	Port int    `dials:"portNum"`
+}
+
+type DocPeer struct {
+	Addr    string        `dials:"peer_addr"`
+	Weight  int           `dials:"weightValue"`
+	Timeout time.Duration `dials:"dial_timeout"`
 }
 
 type CfgDoc struct {
@@ -43,6 +49,7 @@ type CfgDoc struct {
 	In     DocIn               `dials:"in"`
 	PIn    *DocIn              `dials:"p_in"`
 	IP     net.IP              `dials:"ip"`
+	Peers  []DocPeer           `dials:"peers"`
 }
 
 // DocVal: which leaves a document sets, and to what.
@@ -63,6 +70,13 @@ type DocVal struct {
 	PInHost   *string        `json:"p_in_host,omitempty"`
 	PInPort   *int           `json:"p_in_port,omitempty"`
 	IP        *string        `json:"ip,omitempty"`
+	Peers     []PeerVal      `json:"peers,omitempty"`
+}
+
+type PeerVal struct {
+	Addr      *string `json:"addr,omitempty"`
+	Weight    *int    `json:"weight,omitempty"`
+	TimeoutNS *int64  `json:"timeout_ns,omitempty"`
 }
 
 type StreamSpec struct {
@@ -133,6 +147,24 @@ func (g *gen) docVal(p int) DocVal {
 	}
 	if g.pct(p) {
 		v.IP = sp(fmt.Sprintf("10.1.%d.%d", n%250, (n*7)%250))
+	}
+	if g.pct(p) {
+		for i, k := 0, g.in(1, 3); i < k; i++ {
+			var pv PeerVal
+			if g.pct(70) {
+				pv.Addr = sp(fmt.Sprintf("peer%d-%d", n, i))
+			}
+			if g.pct(70) {
+				pv.Weight = ip(n*3 + i)
+			}
+			if g.pct(50) {
+				pv.TimeoutNS = i64p(int64(n+i) * int64(time.Millisecond) * 250)
+			}
+			if pv.Addr == nil && pv.Weight == nil && pv.TimeoutNS == nil {
+				pv.Weight = ip(i)
+			}
+			v.Peers = append(v.Peers, pv)
+		}
 	}
 	return v
 }
@@ -223,6 +255,22 @@ func (v *DocVal) expected(def *DocVal) *CfgDoc {
 		if l.IP != nil {
 			c.IP = net.ParseIP(*l.IP)
 		}
+		if l.Peers != nil {
+			c.Peers = nil
+			for _, pv := range l.Peers {
+				var p DocPeer
+				if pv.Addr != nil {
+					p.Addr = *pv.Addr
+				}
+				if pv.Weight != nil {
+					p.Weight = *pv.Weight
+				}
+				if pv.TimeoutNS != nil {
+					p.Timeout = time.Duration(*pv.TimeoutNS)
+				}
+				c.Peers = append(c.Peers, p)
+			}
+		}
 	}
 	return c
 }
@@ -298,22 +346,41 @@ func (v *DocVal) fields(format string) (top []kv, limits []kv, in []kv, pin []kv
 		}
 	}
 	if v.InHost != nil {
-		in = append(in, kv{"host", str(*v.InHost)})
+		in = append(in, kv{"host_name", str(*v.InHost)})
 	}
 	if v.InPort != nil {
-		in = append(in, kv{"port", strconv.Itoa(*v.InPort)})
+		in = append(in, kv{"portNum", strconv.Itoa(*v.InPort)})
 	}
 	if v.PInHost != nil {
-		pin = append(pin, kv{"host", str(*v.PInHost)})
+		pin = append(pin, kv{"host_name", str(*v.PInHost)})
 	}
 	if v.PInPort != nil {
-		pin = append(pin, kv{"port", strconv.Itoa(*v.PInPort)})
+		pin = append(pin, kv{"portNum", strconv.Itoa(*v.PInPort)})
 	}
 	return
 }
 
+func (v *DocVal) peerFields() [][]kv {
+	var out [][]kv
+	for _, pv := range v.Peers {
+		var l []kv
+		if pv.Addr != nil {
+			l = append(l, kv{"peer_addr", strconv.Quote(*pv.Addr)})
+		}
+		if pv.Weight != nil {
+			l = append(l, kv{"weightValue", strconv.Itoa(*pv.Weight)})
+		}
+		if pv.TimeoutNS != nil {
+			l = append(l, kv{"dial_timeout", strconv.Quote(time.Duration(*pv.TimeoutNS).String())})
+		}
+		out = append(out, l)
+	}
+	return out
+}
+
 func (v *DocVal) renderDoc(format string) string {
 	top, limits, in, pin := v.fields(format)
+	peers := v.peerFields()
 	var b strings.Builder
 	obj := func(l []kv, sep, open, close, eq string, quoteKeys bool) string {
 		parts := make([]string, len(l))
@@ -338,6 +405,13 @@ func (v *DocVal) renderDoc(format string) string {
 		if len(pin) > 0 {
 			all = append(all, kv{"p_in", obj(pin, ", ", "{", "}", ": ", true)})
 		}
+		if v.Peers != nil {
+			items := make([]string, len(peers))
+			for i, p := range peers {
+				items[i] = obj(p, ", ", "{", "}", ": ", true)
+			}
+			all = append(all, kv{"peers", "[" + strings.Join(items, ", ") + "]"})
+		}
 		b.WriteString(obj(all, ",\n ", "{\n ", "\n}\n", ": ", true))
 	case "yaml", "cue":
 		for _, e := range top {
@@ -351,6 +425,13 @@ func (v *DocVal) renderDoc(format string) string {
 		}
 		if len(pin) > 0 {
 			fmt.Fprintf(&b, "p_in: %s\n", obj(pin, ", ", "{", "}", ": ", false))
+		}
+		if v.Peers != nil {
+			items := make([]string, len(peers))
+			for i, p := range peers {
+				items[i] = obj(p, ", ", "{", "}", ": ", false)
+			}
+			fmt.Fprintf(&b, "peers: [%s]\n", strings.Join(items, ", "))
 		}
 	case "toml":
 		for _, e := range top {
@@ -371,6 +452,12 @@ func (v *DocVal) renderDoc(format string) string {
 		if len(pin) > 0 {
 			b.WriteString("[p_in]\n")
 			for _, e := range pin {
+				fmt.Fprintf(&b, "%s = %s\n", e.k, e.v)
+			}
+		}
+		for _, p := range peers {
+			b.WriteString("[[peers]]\n")
+			for _, e := range p {
 				fmt.Fprintf(&b, "%s = %s\n", e.k, e.v)
 			}
 		}
@@ -705,7 +792,7 @@ func (r *streamRun) checkUnset(format string, val reflect.Value, v *DocVal, doc 
 	want := map[string]bool{
 		"Name": v.Name == nil, "Count": v.Count == nil, "Ratio": v.Ratio == nil, "On": v.On == nil, "Wait": v.WaitNS == nil,
 		"When": v.When == nil, "Tags": v.Tags == nil, "Nums": v.Nums == nil, "Limits": v.Limits == nil, "Set": v.Set == nil,
-		"In": v.InHost == nil && v.InPort == nil, "PIn": v.PInHost == nil && v.PInPort == nil, "IP": v.IP == nil,
+		"In": v.InHost == nil && v.InPort == nil, "PIn": v.PInHost == nil && v.PInPort == nil, "IP": v.IP == nil, "Peers": v.Peers == nil,
 	}
 	names := make([]string, 0, len(want))
 	for n := range want {
